@@ -745,6 +745,13 @@ def r17_exactness_and_type_names(idx, r):
               msg=f"children are selected by `{norm(cmp_[0]) if cmp_ else '?'}`, not by `getType() == {tn}`: children of different type names that share flags are mixed up, and a child with explicit flags is not found under its name")
 
 
+def r_borrowed_r01_18(idx, r):
+    """Core.removeAssembly takes the assembly out of the core before the pool adopts it (clause of R14.2): otherwise it has two parents"""
+    from ..report import Only
+    from .c14 import r2_add_remove
+    r2_add_remove(idx, Only(r, ["Core.removeAssembly:remove-before-pooling"]))
+
+
 def run(idx, chk):
     chk.explanation = (
         "C01: who may write Composite._children / .parent (frozen owners), pairing of parent/list/locator effects on every path of "
@@ -787,3 +794,5 @@ def run(idx, chk):
                  necessary="queries with every combination of options agree with a naive walk")
     chk.run_rule("R01.17", "an exactness option is handed on by every delegating query; children of a type are selected by type name", lambda r: r17_exactness_and_type_names(idx, r), floor=9,
                  necessary="queries agree with a naive walk of the child list under the same filter")
+    chk.run_rule("R01.18", "Core.removeAssembly takes the assembly out of the core before the pool adopts it (clause of R14.2): otherwise it has two parents", lambda r: r_borrowed_r01_18(idx, r), floor=1,
+                 necessary="every object has at most one parent")
